@@ -13,7 +13,8 @@ RULE = ('a case = configuration (random, of the modelled destination kinds) + ha
         'environment variable / both / no abbreviations) + program name of length 0..40 (with and without slashes) + an '
         'argument vector that is either byte-level fuzz (all byte values 1..255, empty words, words of only dashes, '
         '"=", brackets, "!"), or a grammar-aware mutation of a valid line (chopped words, inserted "--", "-", "=", '
-        'control characters, doubled dashes, very long words). The harness is built with ASan+UBSan; observable: '
+        'control characters, doubled dashes, very long words); plus container destinations given more values than they hold '
+        '(judged by the sanitizers only). The harness is built with ASan+UBSan; observable: '
         'normal return / exception / sanitizer report. Non-trivial: at least one word.')
 TRUSTED_BASE = _c02.TRUSTED_BASE + [
     'g++ 12 AddressSanitizer + UndefinedBehaviorSanitizer (bounds, null, alignment, object-size; without vptr and '
@@ -86,6 +87,26 @@ def gen_cases(tier, rng):
             nm = pre + 'q' * (L - len(pre))
             cases.append('H:f=16 prog:%s arg:i:i0: argv:2d69,35 kind:progname' % A.hx(nm))
             cases.append('H:f=32 prog:%s arg:i:i0: argv:2d69,35 kind:progname' % A.hx(nm))
+    # fixed-size and other container destinations (outside the handler model: the driver answers "unsupported",
+    # the case is judged by the sanitizers only): more values than the destination holds, in every option
+    # combination that touches the capacity test, in one list, over several uses and as free values
+    seqs = [['1', '2', '3', '4', '5'], ['6', '5', '5', '4', '3', '2', '1'], ['1', '1', '2', '2', '3', '3', '4', '4', '5'],
+            ['0', '15', '16', '17'], ['9', '8', '7']]
+    for kind in ('ai', 'ri', 'ti', 'bs', 'vb', 'ms', 'si', 'qi'):
+        for opts in ([], ['uniq'], ['uniq!'], ['multi'], ['uniq', 'multi'], ['sort'], ['sort', 'uniq']):
+            for seq in seqs:
+                vals = [v + ',1' for v in seq] if kind == 'ms' else seq
+                sep = ';' if kind == 'ms' else ','
+                for form in range(3):
+                    if form == 0:
+                        w = ['-c', sep.join(vals)]
+                    elif form == 1:
+                        w = [x for v in vals for x in ('-c', v)]
+                    else:
+                        w = ['-c', vals[0]] + vals[1:]
+                    cases.append('H:f=0 arg:c,cont:%s0:%s %s kind:container-overflow'
+                                 % (kind, '/'.join(opts), A.argv_tok(w)))
+    n += len(cases)
     guard = 0
     while len(cases) < n and guard < n * 20:
         guard += 1
